@@ -1,2 +1,755 @@
+(* C16 — lemmas and proofs about the lifecycle model. *)
 Require Import V.Lib V.C16_Model.
+From Coq Require Import Arith Lia.
 Open Scope nat_scope.
+
+(* ------------------------------------------------------------------ small list facts *)
+Lemma kind_eqb_refl k : kind_eqb k k = true.
+Proof. destruct k; reflexivity. Qed.
+
+Lemma kind_eqb_eq a b : kind_eqb a b = true <-> a = b.
+Proof. destruct a, b; simpl; split; intro H; try reflexivity; try discriminate. Qed.
+
+Lemma proj_app k i a b : proj k i (a ++ b) = proj k i a ++ proj k i b.
+Proof. unfold proj. rewrite filter_app, map_app. reflexivity. Qed.
+
+Lemma is_cb_true k i e : is_cb k i e = true <-> exists n, e = ECb k i n.
+Proof.
+  split.
+  - destruct e; try discriminate. unfold is_cb. intro H.
+    apply andb_true_iff in H. destruct H as [H1 H2].
+    apply kind_eqb_eq in H1. apply Nat.eqb_eq in H2. subst. eauto.
+  - intros [n ->]. unfold is_cb. rewrite kind_eqb_refl, Nat.eqb_refl. reflexivity.
+Qed.
+
+Lemma proj_nil_iff k i l : proj k i l = [] <-> forall n, ~ In (ECb k i n) l.
+Proof.
+  unfold proj. induction l as [|e l IH]; simpl.
+  - split; intros; auto.
+  - destruct (is_cb k i e) eqn:E; simpl.
+    + split; [discriminate|]. intros H. exfalso.
+      apply is_cb_true in E as [n ->]. apply (H n). left. reflexivity.
+    + rewrite IH. split.
+      * intros H n [H1|H1].
+        -- subst e. rewrite (proj2 (is_cb_true k i _)) in E by eauto. discriminate.
+        -- apply (H n H1).
+      * intros H n H1. apply (H n). right. exact H1.
+Qed.
+
+Lemma proj_cbs_same k i ns : proj k i (map (fun n => ECb k i n) ns) = ns.
+Proof.
+  unfold proj. induction ns as [|n ns IH]; simpl; [reflexivity|].
+  rewrite kind_eqb_refl, Nat.eqb_refl. simpl. rewrite IH. reflexivity.
+Qed.
+
+Lemma proj_cbs_other k i k' i' ns :
+  kind_eqb k k' && (i =? i') = false -> proj k i (map (fun n => ECb k' i' n) ns) = [].
+Proof.
+  intro H. unfold proj. induction ns as [|n ns IH]; simpl; [reflexivity|].
+  rewrite H. exact IH.
+Qed.
+
+Lemma proj_none k i l : (forall e, In e l -> is_cb k i e = false) -> proj k i l = [].
+Proof.
+  intro H. unfold proj. induction l as [|e l IH]; simpl; [reflexivity|].
+  rewrite (H e (or_introl eq_refl)). apply IH. intros e' He'. apply H. right. exact He'.
+Qed.
+
+(* ------------------------------------------------------------------ callbacks *)
+Definition cb_events (k : kind) (i : nat) (ns : list nat) : list event := map (fun n => ECb k i n) ns.
+
+Lemma run_all_labels k i l : run_all k i l = cb_events k i (labels l).
+Proof. unfold run_all, cb_events, labels. rewrite map_map. reflexivity. Qed.
+
+Lemma run_stop_events k i l : fst (run_stop k i l) = cb_events k i (upto_fail l).
+Proof.
+  induction l as [|c l IH]; simpl; [reflexivity|].
+  destruct (cb_fail c); simpl; [reflexivity|].
+  destruct (run_stop k i l) as [ev ok]. simpl in *. rewrite IH. reflexivity.
+Qed.
+
+Lemma run_stop_ok k i l : snd (run_stop k i l) = negb (existsb cb_fail l).
+Proof.
+  induction l as [|c l IH]; simpl; [reflexivity|].
+  destruct (cb_fail c); simpl; [reflexivity|].
+  destruct (run_stop k i l) as [ev ok]. simpl in *. exact IH.
+Qed.
+
+Lemma upto_fail_all l : existsb cb_fail l = false -> upto_fail l = labels l.
+Proof.
+  induction l as [|c l IH]; simpl; [reflexivity|].
+  destruct (cb_fail c); simpl; [discriminate|]. intro H. rewrite IH; auto.
+Qed.
+
+Lemma upto_fail_prefix l : is_prefix (upto_fail l) (labels l) = true.
+Proof.
+  induction l as [|c l IH]; simpl; [reflexivity|].
+  destruct (cb_fail c); simpl; rewrite Nat.eqb_refl; simpl; [reflexivity|exact IH].
+Qed.
+
+Lemma run_stop_split k i l ev ok :
+  run_stop k i l = (ev, ok) ->
+  ev = cb_events k i (upto_fail l) /\ ok = negb (existsb cb_fail l).
+Proof.
+  intro H. pose proof (run_stop_events k i l) as H1. pose proof (run_stop_ok k i l) as H2.
+  rewrite H in *. simpl in *. auto.
+Qed.
+
+(* ------------------------------------------------------------------ [ordered] *)
+Lemma ordered_spec early late l :
+  ordered early late l = true <->
+  (forall l1 e l2, l = l1 ++ e :: l2 -> late e = true -> forall e', In e' l2 -> early e' = false).
+Proof.
+  induction l as [|x l IH]; simpl.
+  - split; [|reflexivity]. intros _ l1 e l2 H. destruct l1; discriminate.
+  - rewrite andb_true_iff, IH. split.
+    + intros [H1 H2] l1 e l2 Heq Hl e' He'.
+      destruct l1 as [|y l1]; simpl in Heq; injection Heq as <- Heq.
+      * subst l2. rewrite Hl in H1. apply negb_true_iff in H1.
+        destruct (early e') eqn:E; [|reflexivity].
+        assert (existsb early l = true) as C by (apply existsb_exists; eauto). congruence.
+      * eapply H2; eauto.
+    + intro H. split.
+      * destruct (late x) eqn:E; [|reflexivity]. apply negb_true_iff.
+        destruct (existsb early l) eqn:E2; [|reflexivity].
+        apply existsb_exists in E2 as [e' [H1 H2]].
+        rewrite (H [] x l eq_refl E e' H1) in H2. discriminate.
+      * intros l1 e l2 Heq. apply (H (x :: l1) e l2). simpl. rewrite Heq. reflexivity.
+Qed.
+
+Lemma ordered_app early late a b :
+  ordered early late (a ++ b) =
+  ordered early late a && ordered early late b && (negb (existsb late a) || negb (existsb early b)).
+Proof.
+  induction a as [|x a IH]; simpl.
+  - rewrite andb_true_r. reflexivity.
+  - rewrite IH, existsb_app. destruct (late x); simpl.
+    + destruct (existsb early a), (existsb early b), (ordered early late a), (ordered early late b), (existsb late a);
+        reflexivity.
+    + destruct (ordered early late a), (ordered early late b); reflexivity.
+Qed.
+
+Lemma ordered_no_late early late l : existsb late l = false -> ordered early late l = true.
+Proof.
+  induction l as [|x l IH]; simpl; [reflexivity|].
+  intro H. apply orb_false_iff in H as [H1 H2]. rewrite H1. simpl. auto.
+Qed.
+
+Lemma ordered_no_early early late l : existsb early l = false -> ordered early late l = true.
+Proof.
+  induction l as [|x l IH]; simpl; [reflexivity|].
+  intro H. apply orb_false_iff in H as [H1 H2]. rewrite H2, IH by exact H2.
+  destruct (late x); reflexivity.
+Qed.
+
+Lemma existsb_false_iff {A} (f : A -> bool) l : existsb f l = false <-> forall x, In x l -> f x = false.
+Proof.
+  induction l as [|y l IH]; simpl.
+  - split; intros; auto. contradiction.
+  - rewrite orb_false_iff, IH. split.
+    + intros [H1 H2] x [Hx|Hx]; [subst; auto|auto].
+    + intro H. split; [apply H; left; reflexivity|]. intros x Hx. apply H. right. exact Hx.
+Qed.
+
+(* ------------------------------------------------------------------ startServers / startWithListenerFds *)
+Definition is_listen_ev (i oi : nat) (e : event) : bool :=
+  match e with
+  | EListen i' _ _ | EInherit i' _ => i' =? i
+  | EFile o _ _ => o =? oi
+  | _ => false
+  end.
+Definition is_tail_ev (i : nat) (e : event) : bool :=
+  match e with EServe i' _ | EAfter i' _ => i' =? i | _ => false end.
+
+Lemma listen_loop_events restart old oi i l : forall j ev ok saved,
+  listen_loop restart old oi i j l = (ev, ok, saved) -> forallb (is_listen_ev i oi) ev = true.
+Proof.
+  induction l as [|sp l IH]; intros j ev ok saved H; simpl in H.
+  - injection H as <- <- <-. reflexivity.
+  - destruct (if restart && sv_graceful sp then fds_lookup (sv_addr sp) old else None) as [[oj mode]|].
+    + destruct (mode =? 2).
+      * injection H as <- <- <-. simpl. rewrite Nat.eqb_refl. reflexivity.
+      * destruct (listen_loop restart old oi i (S j) l) as [[ev' ok'] saved'] eqn:E.
+        injection H as <- <- <-. simpl. rewrite !Nat.eqb_refl. simpl. eapply IH; eauto.
+    + destruct (sv_listen_fail sp).
+      * injection H as <- <- <-. simpl. rewrite Nat.eqb_refl. reflexivity.
+      * destruct (listen_loop restart old oi i (S j) l) as [[ev' ok'] saved'] eqn:E.
+        injection H as <- <- <-. simpl. rewrite Nat.eqb_refl. simpl. eapply IH; eauto.
+Qed.
+
+Lemma serve_events_tail i saved : forallb (is_tail_ev i) (serve_events i saved) = true.
+Proof. induction saved as [|x l IH]; simpl; [reflexivity|]. rewrite Nat.eqb_refl. exact IH. Qed.
+Lemma after_events_tail i saved : forallb (is_tail_ev i) (after_events i saved) = true.
+Proof. induction saved as [|x l IH]; simpl; [reflexivity|]. rewrite Nat.eqb_refl. exact IH. Qed.
+
+Lemma is_prefix_refl l : is_prefix l l = true.
+Proof. induction l as [|x l IH]; simpl; [reflexivity|]. rewrite Nat.eqb_refl. exact IH. Qed.
+
+(* the shape of the events of startWithListenerFds *)
+Inductive plan_shape (c : config) (i : nat) (restart : bool) (old : list (nat * srvspec)) (oi : nat)
+       (ev : list event) (ok : bool) (saved : list (nat * srvspec)) : Prop :=
+  mkShape (ps_hd : list event)
+    (ps_first : list nat)
+    (ps_startup : list nat)
+    (ps_listen : list event)
+    (ps_tail : list event)
+    (ps_eq : ev = ps_hd ++ cb_events KFirst i ps_first ++ cb_events KStartup i ps_startup ++ ps_listen ++ ps_tail)
+    (ps_hd_cases : ps_hd = [] \/ ps_hd = [ENew i] \/ ps_hd = [ENew i; EMake i])
+    (ps_hd_parse : c_parse_fail c = true -> ev = [])
+    (ps_hd_new : c_parse_fail c = false -> exists r, ps_hd = ENew i :: r)
+    (ps_first_restart : restart = true -> ps_first = [])
+    (ps_first_prefix : ps_first = [] \/ ps_first = upto_fail (c_first c))
+    (ps_startup_prefix : ps_startup = [] \/ ps_startup = upto_fail (c_startup c))
+    (ps_listen_ev : forallb (is_listen_ev i oi) ps_listen = true)
+    (ps_tail_ev : forallb (is_tail_ev i) ps_tail = true)
+    (ps_fail_tail : ok = false -> ps_tail = [])
+    (ps_ok : ok = true ->
+          c_parse_fail c = false /\ ps_hd = [ENew i; EMake i] /\
+          ps_first = (if restart then [] else labels (c_first c)) /\
+          ps_startup = labels (c_startup c) /\
+          listen_loop restart old oi i 0 (c_servers c) = (ps_listen, true, saved) /\
+          ps_tail = serve_events i saved ++ (if restart then [] else after_events i saved)).
+
+Lemma start_plan_shape c i restart old oi ev ok saved :
+  start_plan c i restart old oi = (ev, ok, saved) -> plan_shape c i restart old oi ev ok saved.
+Proof.
+  unfold start_plan. intro H.
+  destruct (c_parse_fail c) eqn:Ep.
+  { injection H as <- <- <-.
+    refine (mkShape _ _ _ _ _ _ _ _ [] [] [] [] [] _ _ _ _ _ _ _ _ _ _ _); simpl; auto; try discriminate; try congruence. }
+  destruct (c_setup_fail c) eqn:Es.
+  { injection H as <- <- <-.
+    refine (mkShape _ _ _ _ _ _ _ _ [ENew i] [] [] [] [] _ _ _ _ _ _ _ _ _ _ _); simpl; eauto; try discriminate; try congruence. }
+  destruct (c_make_fail c) eqn:Em.
+  { injection H as <- <- <-.
+    refine (mkShape _ _ _ _ _ _ _ _ [ENew i; EMake i] [] [] [] [] _ _ _ _ _ _ _ _ _ _ _); simpl; eauto; try discriminate; try congruence. }
+  destruct (if restart then ([], true) else run_stop KFirst i (c_first c)) as [e1 ok1] eqn:E1.
+  assert (e1 = cb_events KFirst i (if restart then [] else upto_fail (c_first c)) /\
+          ok1 = (if restart then true else negb (existsb cb_fail (c_first c)))) as [He1 Hok1].
+  { destruct restart. - injection E1 as <- <-. auto. - apply run_stop_split in E1. exact E1. }
+  destruct ok1; simpl in H.
+  2:{ injection H as <- <- <-.
+      refine (mkShape _ _ _ _ _ _ _ _ [ENew i; EMake i] (if restart then [] else upto_fail (c_first c)) [] [] [] _ _ _ _ _ _ _ _ _ _ _);
+        simpl; eauto; try discriminate; try congruence.
+      - rewrite He1, app_nil_r. reflexivity.
+      - intros ->. reflexivity.
+      - destruct restart; auto. }
+  destruct (run_stop KStartup i (c_startup c)) as [e2 ok2] eqn:E2.
+  apply run_stop_split in E2 as [He2 Hok2].
+  assert (Hf : (if restart then [] else upto_fail (c_first c)) = (if restart then [] else labels (c_first c))).
+  { destruct restart; [reflexivity|]. apply upto_fail_all. symmetry in Hok1. apply negb_true_iff in Hok1. exact Hok1. }
+  destruct ok2; simpl in H.
+  2:{ injection H as <- <- <-.
+      refine (mkShape _ _ _ _ _ _ _ _ [ENew i; EMake i] (if restart then [] else upto_fail (c_first c)) (upto_fail (c_startup c)) [] [] _ _ _ _ _ _ _ _ _ _ _);
+        simpl; eauto; try discriminate; try congruence.
+      - rewrite He1, He2, app_nil_r. reflexivity.
+      - intros ->. reflexivity.
+      - destruct restart; auto. }
+  assert (Hs : upto_fail (c_startup c) = labels (c_startup c)).
+  { apply upto_fail_all. symmetry in Hok2. apply negb_true_iff in Hok2. exact Hok2. }
+  destruct (listen_loop restart old oi i 0 (c_servers c)) as [[e3 ok3] sv3] eqn:E3.
+  pose proof (listen_loop_events _ _ _ _ _ _ _ _ _ E3) as Hl.
+  destruct ok3; simpl in H.
+  2:{ injection H as <- <- <-.
+      refine (mkShape _ _ _ _ _ _ _ _ [ENew i; EMake i] (if restart then [] else upto_fail (c_first c)) (upto_fail (c_startup c)) e3 [] _ _ _ _ _ _ _ _ _ _ _);
+        simpl; eauto; try discriminate; try congruence.
+      - rewrite He1, He2, app_nil_r. reflexivity.
+      - intros ->. reflexivity.
+      - destruct restart; auto. }
+  injection H as <- <- <-.
+  refine (mkShape _ _ _ _ _ _ _ _ [ENew i; EMake i] (if restart then [] else upto_fail (c_first c)) (upto_fail (c_startup c)) e3
+                  (serve_events i sv3 ++ (if restart then [] else after_events i sv3)) _ _ _ _ _ _ _ _ _ _ _);
+    simpl; eauto; try discriminate; try congruence.
+  - intros ->. reflexivity.
+  - destruct restart; auto.
+  - rewrite forallb_app, serve_events_tail. destruct restart; [reflexivity|apply after_events_tail].
+  - intros _. rewrite Hf, Hs. repeat split; auto.
+Qed.
+
+(* ------------------------------------------------------------------ Instance.Stop *)
+Definition is_stop_ev (i : nat) (e : event) : bool :=
+  match e with EStop i' _ | ERet i' _ => i' =? i | _ => false end.
+
+Lemma stop_servers_events i srv : forall w sv w' sv' ev,
+  stop_servers i srv w sv = (w', sv', ev) -> forallb (is_stop_ev i) ev = true.
+Proof.
+  induction srv as [|[j sp] srv IH]; intros w sv w' sv' ev H; simpl in H.
+  - injection H as <- <- <-. reflexivity.
+  - destruct (sv_graceful sp).
+    + destruct (take_serving i j sv) as [[root sv1]|].
+      * destruct (stop_servers i srv (wg_done root w) sv1) as [[w2 sv2] ev2] eqn:E.
+        injection H as <- <- <-. simpl. rewrite Nat.eqb_refl. simpl. eapply IH; eauto.
+      * destruct (stop_servers i srv w sv) as [[w2 sv2] ev2] eqn:E.
+        injection H as <- <- <-. simpl. rewrite Nat.eqb_refl. simpl. eapply IH; eauto.
+    + eapply IH; eauto.
+Qed.
+
+Lemma stop_inst_events o s s' ev : stop_inst o s = (s', ev) -> forallb (is_stop_ev (i_id o)) ev = true.
+Proof.
+  unfold stop_inst. destruct (stop_servers (i_id o) (i_srv o) (wg s) (serving s)) as [[w sv] e] eqn:E.
+  intro H. injection H as <- <-. eapply stop_servers_events; eauto.
+Qed.
+
+Lemma stop_inst_next o s s' ev : stop_inst o s = (s', ev) -> next s' = next s /\ known s' = known s /\ once s' = once s.
+Proof.
+  unfold stop_inst. destruct (stop_servers (i_id o) (i_srv o) (wg s) (serving s)) as [[w sv] e] eqn:E.
+  intro H. injection H as <- <-. simpl. auto.
+Qed.
+
+Lemma find_inst_id h l o : find_inst h l = Some o -> i_id o = h.
+Proof.
+  induction l as [|x l IH]; simpl; [discriminate|].
+  destruct (i_id x =? h) eqn:E.
+  - intro H. injection H as <-. apply Nat.eqb_eq. exact E.
+  - exact IH.
+Qed.
+
+Lemma find_inst_in h l o : find_inst h l = Some o -> In o l.
+Proof.
+  induction l as [|x l IH]; simpl; [discriminate|].
+  destruct (i_id x =? h); [intro H; injection H as <-; auto|auto].
+Qed.
+
+(* ------------------------------------------------------------------ Instance.Restart: the four outcomes *)
+Lemma restart_body_cases o c s s' ev r :
+  restart_body o c s = (s', ev, r) ->
+  let h := i_id o in
+  let co := i_cfg o in
+  let failed := cb_events KRestartFailed h (labels (c_rfailed co)) in
+  let n := next s in
+  (existsb cb_fail (c_restart co) = true /\ s' = s /\ r = RInst false h /\
+   ev = cb_events KRestart h (upto_fail (c_restart co)) ++ failed)
+  \/
+  (existsb cb_fail (c_restart co) = false /\
+   exists e2 ok2 saved,
+     start_plan c n true (i_srv o) h = (e2, ok2, saved) /\
+     ((ok2 = false /\ s' = set_next s (next_after c n) /\ r = RInst false h /\
+       ev = cb_events KRestart h (labels (c_restart co)) ++ e2 ++ failed)
+      \/
+      (ok2 = true /\
+       exists e3, stop_inst o (commit (mkInst n (i_root o) c saved) (next_after c n) s) = (s', e3) /\
+         ((existsb cb_fail (c_shutdown co) = true /\ r = RInst false h /\
+           ev = cb_events KRestart h (labels (c_restart co)) ++ e2 ++ e3
+                ++ cb_events KShutdown h (upto_fail (c_shutdown co)) ++ failed)
+          \/
+          (existsb cb_fail (c_shutdown co) = false /\ r = RInst true n /\
+           ev = cb_events KRestart h (labels (c_restart co)) ++ e2 ++ e3
+                ++ cb_events KShutdown h (labels (c_shutdown co)) ++ [EHook HInstanceStartup n]))))).
+Proof.
+  intro H. cbv zeta. unfold restart_body in H. cbv zeta in H.
+  destruct (run_stop KRestart (i_id o) (c_restart (i_cfg o))) as [e1 ok1] eqn:E1.
+  apply run_stop_split in E1 as [He1 Hok1].
+  rewrite run_all_labels in H.
+  destruct ok1; simpl in H.
+  2:{ left. injection H as <- <- <-. symmetry in Hok1. apply negb_false_iff in Hok1.
+      repeat split; auto. rewrite He1. reflexivity. }
+  right. symmetry in Hok1. apply negb_true_iff in Hok1. split; [exact Hok1|].
+  rewrite (upto_fail_all _ Hok1) in He1.
+  destruct (start_plan c (next s) true (i_srv o) (i_id o)) as [[e2 ok2] saved] eqn:E2.
+  exists e2, ok2, saved. split; [reflexivity|].
+  destruct ok2; simpl in H.
+  2:{ left. injection H as <- <- <-. repeat split; auto. rewrite He1. reflexivity. }
+  right. split; [reflexivity|].
+  destruct (stop_inst o (commit (mkInst (next s) (i_root o) c saved) (next_after c (next s)) s)) as [s2 e3] eqn:E3.
+  destruct (run_stop KShutdown (i_id o) (c_shutdown (i_cfg o))) as [e4 ok4] eqn:E4.
+  apply run_stop_split in E4 as [He4 Hok4].
+  exists e3.
+  destruct ok4; simpl in H; injection H as <- <- <-; (split; [reflexivity|]).
+  - right. symmetry in Hok4. apply negb_true_iff in Hok4. rewrite (upto_fail_all _ Hok4) in He4.
+    repeat split; auto. rewrite He1, He4. reflexivity.
+  - left. symmetry in Hok4. apply negb_false_iff in Hok4.
+    repeat split; auto. rewrite He1, He4. reflexivity.
+Qed.
+
+(* ------------------------------------------------------------------ which callbacks an operation can run *)
+Lemma in_cb_events k i ns e : In e (cb_events k i ns) -> exists n, e = ECb k i n /\ In n ns.
+Proof. unfold cb_events. intro H. apply in_map_iff in H as [n [<- Hn]]. eauto. Qed.
+
+Lemma forallb_In {A} (f : A -> bool) l x : forallb f l = true -> In x l -> f x = true.
+Proof. intros H Hx. eapply forallb_forall in H; eauto. Qed.
+
+Lemma plan_cb_in c i restart old oi ev ok saved k j l :
+  plan_shape c i restart old oi ev ok saved -> In (ECb k j l) ev ->
+  j = i /\ ((k = KFirst /\ restart = false) \/ k = KStartup).
+Proof.
+  intros [hd f su li tl Heq Hhd _ _ Hfr _ _ Hli Htl _ _] Hin. subst ev.
+  repeat (apply in_app_or in Hin as [Hin|Hin]).
+  - destruct Hhd as [->|[->| ->]]; simpl in Hin; intuition discriminate.
+  - apply in_cb_events in Hin as [n [He Hn]]. injection He as -> -> ->. split; [reflexivity|]. left. split; [reflexivity|].
+    destruct restart; [|reflexivity]. rewrite (Hfr eq_refl) in Hn. contradiction.
+  - apply in_cb_events in Hin as [n [He Hn]]. injection He as -> -> ->. auto.
+  - apply (forallb_In _ _ _ Hli) in Hin. discriminate.
+  - apply (forallb_In _ _ _ Htl) in Hin. discriminate.
+Qed.
+
+Lemma in_all_shutdown l e : In e (all_shutdown l) ->
+  exists x n, In x l /\ (e = ECb KShutdown (i_id x) n \/ e = ECb KFinal (i_id x) n).
+Proof.
+  unfold all_shutdown. intro H. apply in_flat_map in H as [x [Hx He]].
+  unfold shutdown_cbs in He. rewrite !run_all_labels in He.
+  apply in_app_or in He as [He|He]; apply in_cb_events in He as [n [-> _]]; eauto.
+Qed.
+
+Lemma stop_all_events l : forall s s' ev, stop_all l s = (s', ev) ->
+  forall e, In e ev -> match e with EStop _ _ | ERet _ _ => True | _ => False end.
+Proof.
+  induction l as [|o l IH]; intros s s' ev H e He; simpl in H.
+  - injection H as <- <-. contradiction.
+  - destruct (stop_inst o (set_wg s (wg_add (i_root o) 1 (wg s)))) as [s1 e1] eqn:E1.
+    destruct (stop_all l s1) as [s2 e2] eqn:E2. injection H as <- <-.
+    apply in_app_or in He as [He|He].
+    + apply stop_inst_events in E1. apply (forallb_In _ _ _ E1) in He. destruct e; try discriminate; exact I.
+    + eapply IH; eauto.
+Qed.
+
+Lemma step_cb_kinds s o s' ev r k j l :
+  step s o = (s', ev, r) -> In (ECb k j l) ev ->
+  match o with
+  | OStart _ => j = next s /\ (k = KFirst \/ k = KStartup)
+  | ORestart h _ => (j = h /\ (k = KRestart \/ k = KRestartFailed \/ k = KShutdown)) \/ (j = next s /\ k = KStartup)
+  | OShutdownCbs h => j = h /\ (k = KShutdown \/ k = KFinal)
+  | OExecShutdown => (k = KShutdown \/ k = KFinal) /\ exists x, In x (insts s) /\ i_id x = j
+  | _ => False
+  end.
+Proof.
+  destruct o as [c|h c|h| |h| |h]; simpl; intros H Hin.
+  - unfold do_start in H. destruct (start_plan c (next s) false [] 0) as [[e ok] saved] eqn:E.
+    pose proof (start_plan_shape _ _ _ _ _ _ _ _ E) as Sh.
+    destruct ok; injection H as <- <- <-.
+    + apply in_app_or in Hin as [Hin|[Hin|[]]]; [|discriminate].
+      destruct (plan_cb_in _ _ _ _ _ _ _ _ _ _ _ Sh Hin) as [-> [[-> _]| ->]]; auto.
+    + destruct (plan_cb_in _ _ _ _ _ _ _ _ _ _ _ Sh Hin) as [-> [[-> _]| ->]]; auto.
+  - unfold do_restart in H. destruct (find_inst h (known s)) as [o|] eqn:F.
+    2:{ injection H as <- <- <-. contradiction. }
+    pose proof (find_inst_id _ _ _ F) as Hid.
+    destruct (restart_body o c (set_wg s (wg_add (i_root o) 1 (wg s)))) as [[s1 e1] r1] eqn:E.
+    injection H as <- <- <-.
+    apply restart_body_cases in E. cbv zeta in E. rewrite Hid in E. simpl in E.
+    destruct E as [[_ [_ [_ ->]]] | [_ [e2 [ok2 [saved [P E]]]]]].
+    + apply in_app_or in Hin as [Hin|Hin]; apply in_cb_events in Hin as [n [He _]]; injection He as -> -> ->; auto.
+    + pose proof (start_plan_shape _ _ _ _ _ _ _ _ P) as Sh.
+      assert (forall e3 s2 x, stop_inst o x = (s2, e3) -> ~ In (ECb k j l) e3) as Hstop.
+      { intros e3 s2 x Hs Hi. apply stop_inst_events in Hs. apply (forallb_In _ _ _ Hs) in Hi. discriminate. }
+      destruct E as [[_ [_ [_ ->]]] | [_ [e3 [S3 [[_ [_ ->]] | [_ [_ ->]]]]]]];
+        repeat (apply in_app_or in Hin as [Hin|Hin]);
+        try (apply in_cb_events in Hin as [n [He _]]; injection He as -> -> ->; auto; fail);
+        try (destruct (plan_cb_in _ _ _ _ _ _ _ _ _ _ _ Sh Hin) as [-> [[_ D]| ->]]; [discriminate|auto]; fail);
+        try (exfalso; eapply Hstop; eauto; fail).
+      destruct Hin as [Hin|[]]. discriminate.
+  - destruct (find_inst h (known s)) as [x|]; [|injection H as <- <- <-; contradiction].
+    destruct (stop_inst x s) as [s2 e2] eqn:E. injection H as <- <- <-.
+    apply stop_inst_events in E. apply (forallb_In _ _ _ E) in Hin. discriminate.
+  - destruct (stop_all (insts s) s) as [s2 e2] eqn:E. injection H as <- <- <-.
+    apply (stop_all_events _ _ _ _ E) in Hin. exact Hin.
+  - destruct (find_inst h (known s)) as [x|] eqn:F; injection H as <- <- <-; [|contradiction].
+    pose proof (find_inst_id _ _ _ F) as Hid.
+    unfold shutdown_cbs in Hin. rewrite !run_all_labels in Hin.
+    apply in_app_or in Hin as [Hin|Hin]; apply in_cb_events in Hin as [n [He _]]; injection He as -> -> ->; auto.
+  - destruct (once s); injection H as <- <- <-; [contradiction|].
+    destruct Hin as [Hin|Hin]; [discriminate|].
+    apply in_all_shutdown in Hin as [x [n [Hx [He|He]]]]; injection He as -> -> ->; eauto.
+  - destruct (find_inst h (known s)); injection H as <- <- <-; contradiction.
+Qed.
+
+(* first-startup callbacks run only in casket.Start, for the instance being created *)
+Lemma first_startup_only_in_start s o s' ev r i l :
+  step s o = (s', ev, r) -> In (ECb KFirst i l) ev -> exists c, o = OStart c /\ i = next s.
+Proof.
+  intros H Hin. pose proof (step_cb_kinds _ _ _ _ _ _ _ _ H Hin) as K.
+  destruct o; try contradiction.
+  - destruct K as [-> _]. eauto.
+  - destruct K as [[_ [D|[D|D]]]|[_ D]]; discriminate.
+  - destruct K as [_ [D|D]]; discriminate.
+  - destruct K as [[D|D] _]; discriminate.
+Qed.
+
+(* final-shutdown callbacks run only in ShutdownCallbacks / executeShutdownCallbacks *)
+Lemma final_shutdown_only_at_exit s o s' ev r i l :
+  step s o = (s', ev, r) -> In (ECb KFinal i l) ev ->
+  o = OExecShutdown \/ exists h, o = OShutdownCbs h /\ i = h.
+Proof.
+  intros H Hin. pose proof (step_cb_kinds _ _ _ _ _ _ _ _ H Hin) as K.
+  destruct o; try contradiction.
+  - destruct K as [_ [D|D]]; discriminate.
+  - destruct K as [[_ [D|[D|D]]]|[_ D]]; discriminate.
+  - destruct K as [-> _]. eauto.
+  - auto.
+Qed.
+
+Lemma restart_cbs_only_in_restart s o s' ev r k i l :
+  step s o = (s', ev, r) -> In (ECb k i l) ev -> k = KRestart \/ k = KRestartFailed ->
+  exists c, o = ORestart i c.
+Proof.
+  intros H Hin Hk. pose proof (step_cb_kinds _ _ _ _ _ _ _ _ H Hin) as K.
+  destruct o; try contradiction.
+  - destruct K as [_ [->| ->]]; destruct Hk; discriminate.
+  - destruct K as [[-> _]|[_ ->]]; [eauto|destruct Hk; discriminate].
+  - destruct K as [_ [->| ->]]; destruct Hk; discriminate.
+  - destruct K as [[->| ->] _]; destruct Hk; discriminate.
+Qed.
+
+(* ------------------------------------------------------------------ projections of one start *)
+Lemma proj_listen k i i' oi l : forallb (is_listen_ev i' oi) l = true -> proj k i l = [].
+Proof.
+  intro H. apply proj_none. intros e He. apply (forallb_In _ _ _ H) in He. destruct e; try discriminate; reflexivity.
+Qed.
+Lemma proj_tail k i i' l : forallb (is_tail_ev i') l = true -> proj k i l = [].
+Proof.
+  intro H. apply proj_none. intros e He. apply (forallb_In _ _ _ H) in He. destruct e; try discriminate; reflexivity.
+Qed.
+Lemma proj_stop k i i' l : forallb (is_stop_ev i') l = true -> proj k i l = [].
+Proof.
+  intro H. apply proj_none. intros e He. apply (forallb_In _ _ _ H) in He. destruct e; try discriminate; reflexivity.
+Qed.
+
+Lemma plan_proj c i restart old oi ev ok saved :
+  plan_shape c i restart old oi ev ok saved ->
+  (proj KFirst i ev = [] \/ (restart = false /\ proj KFirst i ev = upto_fail (c_first c))) /\
+  (proj KStartup i ev = [] \/ proj KStartup i ev = upto_fail (c_startup c)) /\
+  (ok = true -> proj KFirst i ev = (if restart then [] else labels (c_first c)) /\
+                proj KStartup i ev = labels (c_startup c)).
+Proof.
+  intros [hd f su li tl Heq Hhd _ _ Hfr Hfp Hsp Hli Htl _ Hok]. subst ev.
+  assert (Hh : forall k, proj k i hd = []).
+  { intro k. destruct Hhd as [->|[->| ->]]; reflexivity. }
+  assert (PF : proj KFirst i (hd ++ cb_events KFirst i f ++ cb_events KStartup i su ++ li ++ tl) = f).
+  { rewrite !proj_app, Hh. unfold cb_events. rewrite proj_cbs_same, proj_cbs_other by reflexivity.
+    rewrite (proj_listen _ _ _ _ _ Hli), (proj_tail _ _ _ _ Htl). simpl. apply app_nil_r. }
+  assert (PS : proj KStartup i (hd ++ cb_events KFirst i f ++ cb_events KStartup i su ++ li ++ tl) = su).
+  { rewrite !proj_app, Hh. unfold cb_events. rewrite proj_cbs_same, proj_cbs_other by reflexivity.
+    rewrite (proj_listen _ _ _ _ _ Hli), (proj_tail _ _ _ _ Htl). simpl. apply app_nil_r. }
+  rewrite PF, PS. repeat split.
+  - destruct restart.
+    + left. apply Hfr. reflexivity.
+    + destruct Hfp as [->| ->]; auto.
+  - destruct Hsp as [->| ->]; auto.
+  - destruct (Hok H) as [_ [_ [-> _]]]. reflexivity.
+  - destruct (Hok H) as [_ [_ [_ [-> _]]]]. reflexivity.
+Qed.
+
+Lemma plan_nonempty_new c i restart old oi ev ok saved :
+  plan_shape c i restart old oi ev ok saved -> ev <> [] -> c_parse_fail c = false.
+Proof.
+  intros [hd f su li tl Heq _ Hp _ _ _ _ _ _ _ _] Hne.
+  destruct (c_parse_fail c); [|reflexivity]. exfalso. apply Hne. apply Hp. reflexivity.
+Qed.
+
+(* ------------------------------------------------------------------ instance numbers are fresh *)
+Lemma commit_next ni nx s : next (commit ni nx s) = nx.
+Proof. unfold commit. destruct (spawn (i_id ni) (i_root ni) (i_srv ni) (wg s) (serving s)). reflexivity. Qed.
+
+Lemma next_after_le c n : n <= next_after c n.
+Proof. unfold next_after. destruct (c_parse_fail c); lia. Qed.
+
+Definition creation_kind (k : kind) : Prop := k = KFirst \/ k = KStartup.
+
+Lemma step_next s o s' ev r :
+  step s o = (s', ev, r) ->
+  next s <= next s' /\
+  (forall k j l, creation_kind k -> In (ECb k j l) ev -> j = next s /\ next s' = S (next s)).
+Proof.
+  destruct o as [c|h c|h| |h| |h]; simpl; intros H.
+  - unfold do_start in H. destruct (start_plan c (next s) false [] 0) as [[e ok] saved] eqn:E.
+    pose proof (start_plan_shape _ _ _ _ _ _ _ _ E) as Sh.
+    assert (N : forall k j l, In (ECb k j l) e -> j = next s /\ next_after c (next s) = S (next s)).
+    { intros k j l Hin. destruct (plan_cb_in _ _ _ _ _ _ _ _ _ _ _ Sh Hin) as [-> _]. split; [reflexivity|].
+      unfold next_after. rewrite (plan_nonempty_new _ _ _ _ _ _ _ _ Sh); [reflexivity|].
+      intro D. rewrite D in Hin. contradiction. }
+    destruct ok; injection H as <- <- <-.
+    + rewrite commit_next. split; [apply next_after_le|]. intros k j l _ Hin.
+      apply in_app_or in Hin as [Hin|[Hin|[]]]; [eauto|discriminate].
+    + simpl. split; [apply next_after_le|]. intros k j l _ Hin. eauto.
+  - unfold do_restart in H. destruct (find_inst h (known s)) as [o|] eqn:F.
+    2:{ injection H as <- <- <-. split; [lia|]. intros k j l _ []. }
+    pose proof (find_inst_id _ _ _ F) as Hid.
+    destruct (restart_body o c (set_wg s (wg_add (i_root o) 1 (wg s)))) as [[s1 e1] r1] eqn:E.
+    injection H as <- <- <-. simpl.
+    apply restart_body_cases in E. cbv zeta in E. simpl in E.
+    destruct E as [[_ [-> [_ ->]]] | [_ [e2 [ok2 [saved [P E]]]]]].
+    + simpl. split; [lia|]. intros k j l [->| ->] Hin;
+        apply in_app_or in Hin as [Hin|Hin]; apply in_cb_events in Hin as [n [He _]]; discriminate.
+    + pose proof (start_plan_shape _ _ _ _ _ _ _ _ P) as Sh.
+      assert (N : forall k j l, In (ECb k j l) e2 -> j = next s /\ next_after c (next s) = S (next s)).
+      { intros k j l Hin. destruct (plan_cb_in _ _ _ _ _ _ _ _ _ _ _ Sh Hin) as [-> _]. split; [reflexivity|].
+        unfold next_after. rewrite (plan_nonempty_new _ _ _ _ _ _ _ _ Sh); [reflexivity|].
+        intro D. rewrite D in Hin. contradiction. }
+      assert (Hstop : forall e3 s2 x k j l, stop_inst o x = (s2, e3) -> ~ In (ECb k j l) e3).
+      { intros e3 s2 x k j l Hs Hi. apply stop_inst_events in Hs. apply (forallb_In _ _ _ Hs) in Hi. discriminate. }
+      destruct E as [[_ [-> [_ ->]]] | [_ [e3 [S3 E]]]].
+      * simpl. split; [apply next_after_le|]. intros k j l Hk Hin.
+        repeat (apply in_app_or in Hin as [Hin|Hin]); eauto;
+          apply in_cb_events in Hin as [n [He _]]; injection He as -> -> ->; destruct Hk; discriminate.
+      * destruct (stop_inst_next _ _ _ _ S3) as [Hn _]. rewrite commit_next in Hn. rewrite Hn.
+        split; [apply next_after_le|]. intros k j l Hk Hin.
+        destruct E as [[_ [_ ->]] | [_ [_ ->]]];
+          repeat (apply in_app_or in Hin as [Hin|Hin]); eauto;
+          try (apply in_cb_events in Hin as [n [He _]]; injection He as -> -> ->; destruct Hk; discriminate);
+          try (exfalso; eapply Hstop; eauto; fail).
+        destruct Hin as [Hin|[]]. discriminate.
+  - destruct (find_inst h (known s)) as [x|]; [|injection H as <- <- <-; split; [lia|intros k j l _ []]].
+    destruct (stop_inst x s) as [s2 e2] eqn:E. injection H as <- <- <-.
+    destruct (stop_inst_next _ _ _ _ E) as [-> _]. split; [lia|]. intros k j l _ Hin.
+    apply stop_inst_events in E. apply (forallb_In _ _ _ E) in Hin. discriminate.
+  - pose proof (step_cb_kinds s OStopAll s' ev r) as K. simpl in K.
+    assert (NX : forall l s0 s1 e, stop_all l s0 = (s1, e) -> next s1 = next s0).
+    { induction l as [|o l IH]; intros s0 s1 e E; simpl in E.
+      - injection E as <- <-. reflexivity.
+      - destruct (stop_inst o (set_wg s0 (wg_add (i_root o) 1 (wg s0)))) as [sa ea] eqn:E1.
+        destruct (stop_all l sa) as [sb eb] eqn:E2. injection E as <- <-. simpl.
+        rewrite (IH _ _ _ E2). destruct (stop_inst_next _ _ _ _ E1) as [-> _]. reflexivity. }
+    destruct (stop_all (insts s) s) as [s2 e2] eqn:E. pose proof (NX _ _ _ _ E) as Hn.
+    injection H as <- <- <-. split; [lia|]. intros k j l _ Hin. exfalso. eapply K; eauto.
+  - destruct (find_inst h (known s)) as [x|] eqn:F; injection H as <- <- <-; (split; [lia|]); [|intros k j l _ []].
+    intros k j l Hk Hin. unfold shutdown_cbs in Hin. rewrite !run_all_labels in Hin.
+    apply in_app_or in Hin as [Hin|Hin]; apply in_cb_events in Hin as [n [He _]]; injection He as -> -> ->;
+      destruct Hk; discriminate.
+  - destruct (once s); injection H as <- <- <-; simpl; (split; [lia|]); [intros k j l _ []|].
+    intros k j l Hk [Hin|Hin]; [discriminate|].
+    apply in_all_shutdown in Hin as [x [n [Hx [He|He]]]]; injection He as -> -> ->; destruct Hk; discriminate.
+  - destruct (find_inst h (known s)); injection H as <- <- <-; (split; [lia|intros k j l _ []]).
+Qed.
+
+(* ------------------------------------------------------------------ histories *)
+Lemma trace_cons r rs : trace (r :: rs) = rec_events r ++ trace rs.
+Proof. reflexivity. Qed.
+
+Lemma proj_in k i l n : In n (proj k i l) -> In (ECb k i n) l.
+Proof.
+  unfold proj. induction l as [|e l IH]; simpl; [auto|].
+  destruct (is_cb k i e) eqn:E; simpl.
+  - intros [H|H]; [|right; auto]. apply is_cb_true in E as [m ->]. simpl in H. subst. left. reflexivity.
+  - intro H. right. auto.
+Qed.
+
+Lemma later_ids k : creation_kind k -> forall ops s j, j < next s -> proj k j (trace (run s ops)) = [].
+Proof.
+  intros Hk ops. induction ops as [|o ops IH]; intros s j Hj; simpl; [reflexivity|].
+  destruct (step s o) as [[s' ev] res] eqn:E. rewrite trace_cons, proj_app.
+  change (rec_events (o, ev, res)) with ev.
+  destruct (step_next _ _ _ _ _ E) as [Hle Hc].
+  rewrite IH by lia. rewrite app_nil_r. apply proj_nil_iff. intros n Hin.
+  destruct (Hc _ _ _ Hk Hin) as [-> _]. lia.
+Qed.
+
+Lemma creation_once k : creation_kind k -> forall ops s i,
+  proj k i (trace (run s ops)) = [] \/
+  exists pre o post, ops = pre ++ o :: post /\ i = next (final s pre) /\
+     proj k i (trace (run s ops)) = proj k i (snd (fst (step (final s pre) o))).
+Proof.
+  intros Hk ops. induction ops as [|o ops IH]; intros s i; simpl; [left; reflexivity|].
+  destruct (step s o) as [[s' ev] res] eqn:E. rewrite trace_cons, proj_app.
+  change (rec_events (o, ev, res)) with ev.
+  destruct (proj k i ev) as [|n pl] eqn:P.
+  - simpl. destruct (IH s' i) as [H|[pre [o' [post [-> [Hi Hp]]]]]]; [left; exact H|].
+    right. exists (o :: pre), o', post. simpl. rewrite E. simpl. auto.
+  - right. exists [], o, ops. simpl. rewrite E. simpl.
+    assert (Hin : In (ECb k i n) ev) by (apply proj_in; rewrite P; left; reflexivity).
+    destruct (step_next _ _ _ _ _ E) as [_ Hc]. destruct (Hc _ _ _ Hk Hin) as [-> Hn].
+    rewrite (later_ids k Hk ops s' (next s)) by lia. rewrite app_nil_r. auto.
+Qed.
+
+Lemma proj_hook k i h j : proj k i [EHook h j] = [].
+Proof. reflexivity. Qed.
+
+Lemma step_creation_proj s o s' ev r :
+  step s o = (s', ev, r) ->
+  match o with
+  | OStart c =>
+      (proj KFirst (next s) ev = [] \/ proj KFirst (next s) ev = upto_fail (c_first c)) /\
+      (proj KStartup (next s) ev = [] \/ proj KStartup (next s) ev = upto_fail (c_startup c)) /\
+      (forall n, r = RInst true n -> n = next s /\ proj KFirst n ev = labels (c_first c) /\
+                                     proj KStartup n ev = labels (c_startup c))
+  | ORestart h c =>
+      proj KFirst (next s) ev = [] /\
+      (proj KStartup (next s) ev = [] \/ proj KStartup (next s) ev = upto_fail (c_startup c)) /\
+      (forall n, r = RInst true n -> n = next s /\ proj KStartup n ev = labels (c_startup c))
+  | _ => proj KFirst (next s) ev = [] /\ proj KStartup (next s) ev = []
+  end.
+Proof.
+  intro H.
+  assert (Hno : forall k, (forall j l, In (ECb k j l) ev -> False) -> proj k (next s) ev = []).
+  { intros k Hk. apply proj_nil_iff. intros n Hin. eapply Hk; eauto. }
+  destruct o as [c|h c|h| |h| |h];
+    try (split; apply Hno; intros j l Hin; pose proof (step_cb_kinds _ _ _ _ _ _ _ _ H Hin) as K; simpl in K;
+         try contradiction; try (destruct K as [_ [D|D]]; discriminate); try (destruct K as [[D|D] _]; discriminate); fail).
+  - simpl in H. unfold do_start in H. destruct (start_plan c (next s) false [] 0) as [[e ok] saved] eqn:E.
+    pose proof (start_plan_shape _ _ _ _ _ _ _ _ E) as Sh.
+    destruct (plan_proj _ _ _ _ _ _ _ _ Sh) as [PF [PS POK]].
+    destruct ok; injection H as <- <- <-.
+    + rewrite !proj_app, !proj_hook, !app_nil_r. destruct (POK eq_refl) as [P1 P2].
+      split; [|split].
+      * destruct PF as [PF|[_ PF]]; auto.
+      * exact PS.
+      * intros n Hn. injection Hn as <-. rewrite !proj_app, !proj_hook, !app_nil_r. auto.
+    + split; [|split].
+      * destruct PF as [PF|[_ PF]]; auto.
+      * exact PS.
+      * intros n Hn. discriminate.
+  - simpl in H. unfold do_restart in H. destruct (find_inst h (known s)) as [o|] eqn:F.
+    2:{ injection H as <- <- <-. simpl. split; [reflexivity|]. split; [auto|]. intros n D. discriminate. }
+    destruct (restart_body o c (set_wg s (wg_add (i_root o) 1 (wg s)))) as [[s1 e1] r1] eqn:E.
+    injection H as <- <- <-.
+    apply restart_body_cases in E. cbv zeta in E. simpl in E.
+    destruct E as [[_ [_ [-> ->]]] | [_ [e2 [ok2 [saved [P E]]]]]].
+    + unfold cb_events. rewrite !proj_app, !proj_cbs_other by reflexivity. simpl.
+      split; [reflexivity|]. split; [auto|]. intros n D. discriminate.
+    + pose proof (start_plan_shape _ _ _ _ _ _ _ _ P) as Sh.
+      destruct (plan_proj _ _ _ _ _ _ _ _ Sh) as [PF [PS POK]].
+      assert (PF0 : proj KFirst (next s) e2 = []) by (destruct PF as [PF|[D _]]; [exact PF|discriminate]).
+      destruct E as [[_ [_ [-> ->]]] | [-> [e3 [S3 E]]]].
+      * unfold cb_events. rewrite !proj_app, !proj_cbs_other by reflexivity. simpl. rewrite !app_nil_r.
+        split; [exact PF0|]. split; [exact PS|]. intros n D. discriminate.
+      * pose proof (stop_inst_events _ _ _ _ S3) as Hst.
+        destruct (POK eq_refl) as [_ P2].
+        destruct E as [[_ [-> ->]] | [_ [-> ->]]];
+          unfold cb_events; rewrite !proj_app, !proj_cbs_other by reflexivity;
+          rewrite !(proj_stop _ _ _ _ Hst); simpl; rewrite ?proj_hook, !app_nil_r.
+        -- split; [exact PF0|]. split; [exact PS|]. intros n D. discriminate.
+        -- split; [exact PF0|]. split; [exact PS|]. intros n D. injection D as <-.
+           split; [reflexivity|].
+           rewrite !proj_app, !proj_cbs_other by reflexivity.
+           rewrite !(proj_stop _ _ _ _ Hst). simpl. rewrite !app_nil_r. exact P2.
+Qed.
+
+(* first-startup callbacks: over a whole history the callbacks of instance i appear in one
+   record only, that of the casket.Start which created i *)
+Lemma first_startup_once ops i :
+  let tr := trace (run init ops) in
+  proj KFirst i tr = [] \/
+  exists pre c post, ops = pre ++ OStart c :: post /\ i = next (final init pre) /\
+    (proj KFirst i tr = upto_fail (c_first c)) /\
+    (forall n, snd (step (final init pre) (OStart c)) = RInst true n ->
+               n = i /\ proj KFirst i tr = labels (c_first c)).
+Proof.
+  cbv zeta. destruct (creation_once KFirst (or_introl eq_refl) ops init i) as [H|[pre [o [post [-> [Hi Hp]]]]]]; [left; exact H|].
+  destruct (step (final init pre) o) as [[s' ev] r] eqn:E. simpl in Hp.
+  pose proof (step_creation_proj _ _ _ _ _ E) as C. rewrite <- Hi in C.
+  destruct (proj KFirst i ev) as [|x xs] eqn:P; [left; rewrite Hp; reflexivity|].
+  right. destruct o as [c|h c|h| |h| |h]; try (destruct C as [C _]; discriminate).
+  exists pre, c, post. split; [reflexivity|]. split; [exact Hi|].
+  destruct C as [[C|C] [_ C3]]; [discriminate|]. split; [rewrite Hp; exact C|].
+  intros n Hn. rewrite E in Hn. simpl in Hn. destruct (C3 n Hn) as [-> [C4 _]].
+  split; [reflexivity|]. rewrite Hp, <- P. exact C4.
+Qed.
+
+Lemma startup_once ops i :
+  let tr := trace (run init ops) in
+  proj KStartup i tr = [] \/
+  exists pre o post c, ops = pre ++ o :: post /\ i = next (final init pre) /\
+    (o = OStart c \/ exists h, o = ORestart h c) /\
+    (proj KStartup i tr = upto_fail (c_startup c)) /\
+    (forall n, snd (step (final init pre) o) = RInst true n ->
+               n = i /\ proj KStartup i tr = labels (c_startup c)).
+Proof.
+  cbv zeta. destruct (creation_once KStartup (or_intror eq_refl) ops init i) as [H|[pre [o [post [-> [Hi Hp]]]]]]; [left; exact H|].
+  destruct (step (final init pre) o) as [[s' ev] r] eqn:E. simpl in Hp.
+  pose proof (step_creation_proj _ _ _ _ _ E) as C. rewrite <- Hi in C.
+  destruct (proj KStartup i ev) as [|x xs] eqn:P; [left; rewrite Hp; reflexivity|].
+  right. destruct o as [c|h c|h| |h| |h]; try (destruct C as [_ C]; discriminate).
+  - exists pre, (OStart c), post, c. split; [reflexivity|]. split; [exact Hi|]. split; [auto|].
+    destruct C as [_ [[C|C] C3]]; [discriminate|]. split; [rewrite Hp; exact C|].
+    intros n Hn. rewrite E in Hn. simpl in Hn. destruct (C3 n Hn) as [-> [_ C4]]. split; [reflexivity|]. rewrite Hp, <- P. exact C4.
+  - exists pre, (ORestart h c), post, c. split; [reflexivity|]. split; [exact Hi|]. split; [eauto|].
+    destruct C as [_ [[C|C] C3]]; [discriminate|]. split; [rewrite Hp; exact C|].
+    intros n Hn. rewrite E in Hn. simpl in Hn. destruct (C3 n Hn) as [-> C4]. split; [reflexivity|]. rewrite Hp, <- P. exact C4.
+Qed.
